@@ -37,6 +37,8 @@ def generate(seed, tier):
         k["disc"] = rng.choice([0.0, 0.3, 0.6, 0.9])
     A = model.gen_treebank(rng, k, nsent=rng.choice([1, 2, 3, 5]), sid_pattern="consecutive")
     B = model.gen_treebank(rng, k, nsent=rng.choice([1, 2, 4]), sid_pattern="consecutive")
+    if rng.random() < 0.04:
+        A = []                                    # an empty file: all totals are zero
     for i, s in enumerate(B):
         s["sid"] = len(A) + 1 + i
     emptypos = False
